@@ -52,6 +52,20 @@ def filler(n):
     return bytes((i * 13 + 5) % 251 for i in range(n))
 
 
+def wif_replay(n):
+    """Base58 texts whose decoding has n bytes: plain filler first, then payloads that carry a REAL Base58Check checksum (the paths
+    behind the checksum comparison are only reached with one): filler, all-0x01 (a compression marker in every position), 0x80 || 0x01.."""
+    import hashlib
+    op = {"op": "decode", "kind": "wif", "text": b58encode(filler(n))}
+    alts = []
+    if n >= 4:
+        for payload in (filler(n - 4), bytes([1] * (n - 4)), bytes(([0x80] + [1] * (n - 5))[:n - 4])):
+            chk = hashlib.sha256(hashlib.sha256(payload).digest()).digest()[:4]
+            alts.append({"op": "decode", "kind": "wif", "text": b58encode(payload + chk)})
+    op["alternatives"] = alts
+    return op
+
+
 # entry points: (name, callsite, arg builder(ex, ctx) -> args, replay builder(model, ctx) -> op or None)
 def entries(P):
     E = []
@@ -84,7 +98,7 @@ def entries(P):
               lambda ex, ctx: [buf(ex, ctx), Bool(z3.Bool("has_pub_key"))],
               lambda m, ctx: {"op": "decode", "kind": "ecies", "hex": (b"BIE1" + GPOINT + filler(4096))[:min(blen_of(m, ctx, "input"), 4096)].hex(), "flag": z3.is_true(m.eval(z3.Bool("has_pub_key"), model_completion=True))}))
     E.append(("private_key_from_wif", "private_key::PrivateKey::from_wif_impl", lambda ex, ctx: [strarg(ex, ctx)],
-              lambda m, ctx: {"op": "decode", "kind": "wif", "text": b58encode(filler(min(decoded_len(m, "b58_decoded_len", None), 64)))}))
+              lambda m, ctx: wif_replay(min(decoded_len(m, "b58_decoded_len", None), 64))))
     E.append(("address_from_string", "address::P2PKHAddress::from_string_impl", lambda ex, ctx: [strarg(ex, ctx)],
               lambda m, ctx: {"op": "decode", "kind": "address", "text": b58encode(filler(min(decoded_len(m, "b58_decoded_len", None), 64))).rjust(min(bv_val(m, ctx.strs[0][1]), 60), "1")}))
     E.append(("xprv_from_string", "extended_private_key::ExtendedPrivateKey::from_string_impl", lambda ex, ctx: [strarg(ex, ctx)],
@@ -177,7 +191,11 @@ def q_decoders(env, only=None, name=None):
                     qr.undecided.append(f"{nm}: panic path ({key}) without a native replay builder")
                     continue
                 op = mkreplay(m, r.ctx)
-                nat = native_decode(op)
+                # the decoder layer is content-free: a builder may offer alternative inputs of the same length (e.g. with a real checksum)
+                for op in [op] + list(op.pop("alternatives", [])):
+                    nat = native_decode(op)
+                    if any(("panic" in v or "abort" in v) for v in nat.values()):
+                        break
                 item = {"message": f"{nm}: {key}", "request": {"tx": {"version": 1, "locktime": 0, "inputs": [], "outputs": []}, "ops": [op]}, "op_index": 0, "expected": "Ok or Err (no panic/abort)", "native": nat}
                 if any(("panic" in v or "abort" in v) for v in nat.values()):
                     qr.violations.append(item)
